@@ -371,7 +371,7 @@ def llgr_case(rng):
 
 
 def llgr_line(c):
-    steps = ["(up a gr=%d llgr=%d)" % (c["r"], c["l"]), "(up b)"]
+    steps = ["(up a gr=%d llgr=%d)" % (c["r"], c["l"]), "(up b)", "(up c gr=120 llgr=60)", "(up e gr=120 llgr=60 llgrfam=6)"]
     for pf in c["pfx"]:
         steps.append("(upd a (a %s 0 (65001) - - 0 () - ()))" % pf)
     steps += ["(eor a)", "(close a)", "(sleep %d)" % (c["r"] + 2), "(obs)"]
@@ -385,7 +385,9 @@ def llgr_line(c):
     else:
         steps.append("(sleep 3)")
     steps += ["(obs)", "(sleep %d)" % (c["l"] + c["r"] + 10), "(obs)"]
-    return "(sim (global 65000 1.1.1.1 sync) (peers (a 10.0.0.1 65001 gr=120 llgr=%d) (b 10.0.0.2 65002)) (steps %s))" % (c["l"], " ".join(steps))
+    # b: no long-lived GR at all; c: long-lived GR for IPv4 unicast; e: long-lived GR negotiated, but its capability lists IPv6 unicast only
+    return ("(sim (global 65000 1.1.1.1 sync) (peers (a 10.0.0.1 65001 gr=120 llgr=%d) (b 10.0.0.2 65002) (c 10.0.0.3 65003 gr=120 llgr=60) (e 10.0.0.5 65005 gr=120 llgr=60)) "
+            "(steps %s))" % (c["l"], " ".join(steps)))
 
 
 def llgr_oracle(c, out):
@@ -399,6 +401,16 @@ def llgr_oracle(c, out):
     want = set(c["pfx"])
     if held(o1) != want:
         return ("llgr-routes-not-retained", "after the restart time ran out the routes of the peer must be kept for the long-lived stale time (%d s): held %s, announced %s" % (c["l"], sorted(held(o1)), sorted(want)))
+    # export of long-lived stale routes (RFC 9494 4.3): only to a neighbour whose capability lists the family, marked LLGR_STALE
+    for o in (o1,):
+        for pf in want:
+            def has(n):
+                return [v for k, v in o["peers"][n].get("view", {}).items() if k.split("#")[0] == pf]
+            if not has("c") or "4294901766" not in has("c")[0]:
+                return ("llgr-stale-route-not-sent-to-llgr-peer", "%s: the neighbour with long-lived GR for IPv4 unicast holds %s; expected the route with LLGR_STALE" % (pf, has("c")))
+            for n, why in (("b", "has no long-lived GR capability"), ("e", "lists IPv6 unicast only in its long-lived GR capability")):
+                if has(n):
+                    return ("llgr-stale-route-sent-to-peer-without-llgr-for-the-family", "%s: the neighbour %s %s and still holds the long-lived stale route %s" % (pf, n, why, has(n)))
     if held(o2) != want:
         return ("llgr-routes-dropped-before-the-long-lived-timer", "%s during the long-lived stale period (%d s, %d s gone): held %s, retained before %s" % (c["second"], c["l"], 2 * c["r"] + 4, sorted(held(o2)), sorted(want)))
     if c["second"] != "eor-then-lost" and held(o3):
